@@ -9,7 +9,7 @@ from architecture_simulator.isa.riscv.rv32i_instructions import instruction_map
 from architecture_simulator.isa.riscv.instruction_types import (
     RTypeInstruction, ITypeInstruction, ShiftITypeInstruction, MemoryITypeInstruction, STypeInstruction,
     BTypeInstruction, UTypeInstruction, JTypeInstruction)
-from spec.smem import SpecMemory
+from spec.smem import SpecMemory, SpecWordMemory
 
 LO = Settings().get()["memory_address_min_bytes"]
 IMEM_TOP = Settings().get()["instruction_memory_max_bytes"]
@@ -27,6 +27,24 @@ def data_memory(name="L", word_contained=False):
         m.memory_file = sym_map(name, UInt8)
         return m
     return SpecMemory(sym_map(name, UInt8), LO, word_contained)
+
+
+def word_memory(name="MW"):
+    """backing store of the cache proofs.  Symbolically: S-MEM kept per word.  Natively (replay): the real flat Memory
+    filled from the model's words (adjudication mode: lazily materialised bytes)."""
+    if native():
+        from pyvc import api as _api
+        m = Memory(AddressingType.BYTE, 32, True, range(LO, TOP))
+        if _api.LAZY[0] is not None:
+            m.memory_file = sym_map(name + "_bytes", UInt8)
+            return m
+        words = sym_map(name, UInt32)
+        m.memory_file = {}
+        for w in words:
+            for k in range(4):
+                m.memory_file[w + k] = UInt8((int(words[w]) >> (8 * k)) & 255)
+        return m
+    return SpecWordMemory(sym_map(name, UInt32), LO)
 
 
 def byte_at(mem, a):
